@@ -11,6 +11,49 @@ from .algebra import Poly, Atoms, C, A
 from .facts import FactMap, truth, facts_true, facts_false
 
 GATE_HINT = 'file_version'
+HELPERS = {}      # simple name -> FuncInfo of package functions with one return expression (set by the footer rule)
+
+
+def register_helpers(P):
+    HELPERS.clear()
+    seen = {}
+    for f in P.functions.values():
+        body = [st for st in f.node.body if not (isinstance(st, ast.Expr) and isinstance(st.value, ast.Constant))]
+        if len(body) == 1 and isinstance(body[0], ast.Return) and body[0].value is not None:
+            seen.setdefault(f.name, []).append(f)
+    for name, fs in seen.items():
+        if len(fs) == 1:
+            HELPERS[name] = fs[0]
+
+
+def _through_helper(e, resolve):
+    """(return expression, resolver binding the helper's parameters to the call's arguments) for a call of a one-expression
+    package function; None otherwise"""
+    if not isinstance(e, ast.Call):
+        return None
+    name = U(e.func).split('.')[-1]
+    h = HELPERS.get(name)
+    if h is None:
+        return None
+    params = [p_ for p_ in h.params if p_ not in ('self', 'cls')]
+    if any(isinstance(a, ast.Starred) for a in e.args) or len(e.args) > len(params):
+        return None
+    b = dict(zip(params, e.args))
+    for k in e.keywords:
+        if k.arg in params:
+            b[k.arg] = k.value
+    d = h.node.args.defaults
+    for p_, dv in zip([a.arg for a in h.node.args.args][len(h.node.args.args) - len(d):], d):
+        b.setdefault(p_, dv)
+    if set(b) != set(params):
+        return None
+    body = [st for st in h.node.body if isinstance(st, ast.Return)]
+
+    def res(nm, b=b, outer=resolve):
+        if nm in b:
+            return b[nm]
+        return None
+    return body[0].value, res, b, resolve
 
 
 class FooterAlgebra:
@@ -47,10 +90,24 @@ def _serialises_array(f, e, depth):
     return False
 
 
+class _ArgSub(ast.NodeTransformer):
+    def __init__(self, b):
+        self.b = b
+
+    def visit_Name(self, n):
+        import copy
+        return copy.deepcopy(self.b[n.id]) if n.id in self.b else n
+
+
 def bytelen(e, FA, resolve, gate):
     """length in bytes of a bytes-valued expression -> Poly or None.  ``gate`` is the assumed truth of the
     version gate (None: expression must not depend on it)."""
     T = FA.T
+    th = _through_helper(e, resolve)
+    if th is not None:
+        import copy
+        expr = _ArgSub(th[2]).visit(copy.deepcopy(th[0]))
+        return bytelen(expr, FA, resolve, gate)
     if isinstance(e, ast.Call):
         fn = e.func
         if isinstance(fn, ast.Attribute) and fn.attr == 'tobytes':
@@ -125,6 +182,11 @@ def gate_truth(test, gate, resolve=None, depth=0):
 
 def intval(e, FA, resolve, gate):
     T = FA.T
+    th = _through_helper(e, resolve)
+    if th is not None:
+        import copy
+        expr = _ArgSub(th[2]).visit(copy.deepcopy(th[0]))
+        return intval(expr, FA, resolve, gate)
     if isinstance(e, ast.Constant) and isinstance(e.value, int) and not isinstance(e.value, bool):
         return C(e.value)
     if isinstance(e, ast.Call) and U(e.func) == 'len' and e.args:
